@@ -16,7 +16,9 @@ CONSTANT MaxDepth
 
 \* foriter: a loop over an iterator (until(1)); cofdeep: the stored block is rendered from inside a loop body that has its own x
 \* fn2: the function is called twice in a row from the same scope; its body reads x and y_i BEFORE it binds them
-Kinds == {"for", "fn", "fn2", "partial", "cof", "cof2", "blkown", "foriter", "cofdeep"}
+\* cofdef: contentOf of an undefined name with a default block and data; partialvar: the partial's data is a map the caller
+\* keeps in a variable and uses again afterwards
+Kinds == {"for", "fn", "fn2", "partial", "partialvar", "cof", "cof2", "cofdef", "blkown", "foriter", "cofdeep"}
 \* bind: the construct itself binds x; let: it binds an unrelated name and its body lets x;
 \* bare: it binds nothing at all (function without parameters, partial / contentOf without data) and its body lets x
 Modes == {"bind", "let", "bare"}
@@ -28,6 +30,7 @@ D(i) == Digit(i)
 XV(i) == <<"x", D(i)>>                      \* the value x is bound to at level i
 YN(i) == "y" \o D(i)
 FNm(i) == "f" \o D(i)
+ON(i) == "o" \o D(i)
 PN(i) == <<"p", D(i)>>                      \* partial name (characters)
 CN(i) == <<"c", D(i)>>                      \* contentFor name
 
@@ -55,6 +58,12 @@ Construct(i) ==
                               ELSE <<Let(FNm(i), FnLit(<<BN(i)>>, pre \o Body(i))), Emit(Call(FNm(i), <<BV(i)>>)), Text(<<"/">>), Emit(Call(FNm(i), <<BV(i)>>))>>
     [] fs[i].k = "partial" -> IF Bare(i) THEN <<Emit(Call("partial", <<Str(PN(i))>>))>>
                               ELSE <<Emit(Call("partial", <<Str(PN(i)), Hash(<<BN(i)>>, <<BV(i)>>)>>))>>
+    [] fs[i].k = "partialvar" -> LET dat == IF Bare(i) THEN Hash(<<>>, <<>>) ELSE Hash(<<BN(i)>>, <<BV(i)>>) IN
+                              <<Let(ON(i), dat), Emit(Call("partial", <<Str(PN(i)), Id(ON(i))>>)),
+                                Text(<<"#">>), Emit(Call("len", <<Id(ON(i))>>)), Emit(Idx(Id(ON(i)), Str(<<"y", D(i)>>))), Emit(Idx(Id(ON(i)), Str(<<"x">>))),
+                                Emit(Call("partial", <<Str(PN(i)), Id(ON(i))>>))>>
+    [] fs[i].k = "cofdef"  -> <<Emit(CallB("contentOf", <<Str(CN(i))>> \o (IF Bare(i) THEN <<>> ELSE <<Hash(<<BN(i), "w">>, <<BV(i), Str(<<"w">>)>>)>>), Body(i))),
+                                Emit(IfElse(Id("w"), <<Text(<<"L">>)>>, <<Text(<<"-">>)>>))>>
     [] fs[i].k = "cof"     -> <<Code(CallB("contentFor", <<Str(CN(i))>>, Body(i)))>> \o
                               (IF Bare(i) THEN <<Emit(Call("contentOf", <<Str(CN(i))>>))>>
                                ELSE <<Emit(Call("contentOf", <<Str(CN(i)), Hash(<<BN(i)>>, <<BV(i)>>)>>))>>)
@@ -78,7 +87,7 @@ Construct(i) ==
 Data == [t |-> S(<<"t", "0">>)]
 Prog == <<Let("x", Str(<<"x", "0">>))>> \o Probe
         \o (IF Len(fs) >= 1 THEN Construct(1) ELSE <<>>) \o ProbeAfter(1) \o Probe
-PartIdx == {i \in 1..Len(fs) : fs[i].k = "partial"}
+PartIdx == {i \in 1..Len(fs) : fs[i].k \in {"partial", "partialvar"}}
 Parts == [nm \in {JoinChars(PN(i)) : i \in PartIdx} |-> Body(CHOOSE i \in PartIdx : JoinChars(PN(i)) = nm)]
 
 Init == fs = <<>> /\ res = [k |-> "none"]
@@ -105,7 +114,7 @@ RECURSIVE Inside(_)
 ProbeText(i) == <<"[">> \o XV(i) \o <<",", "t", "0", "]">>
 AfterText(j) == IF j <= Len(fs) THEN <<"(">> \o XV(j - 1) \o <<"-", ")">> ELSE <<>>
 Inside(i) == ProbeText(i) \o (IF i < Len(fs) THEN Inside(i + 1) ELSE <<"*">>) \o AfterText(i + 1)
-ProbeTheorem == (res.k = "out" /\ \A i \in 1..Len(fs) : fs[i].k \notin {"cof2", "cofdeep", "fn2"}) => PiecesText(res.pieces) = ProbeText(0) \o Inside(1) \o AfterText(1) \o ProbeText(0)
+ProbeTheorem == (res.k = "out" /\ \A i \in 1..Len(fs) : fs[i].k \notin {"cof2", "cofdeep", "fn2", "partialvar", "cofdef"}) => PiecesText(res.pieces) = ProbeText(0) \o Inside(1) \o AfterText(1) \o ProbeText(0)
 
 Expect(r) == CASE r.k = "out" -> [k |-> "out", pieces |-> r.pieces, log |-> r.log]
                [] r.k = "err" -> [k |-> "err", w |-> r.w, log |-> r.log]
